@@ -1,1 +1,105 @@
+//! Engine B: strum_macros' macro bodies compiled into an ordinary library.
+#![allow(dead_code, unused_imports, clippy::all)]
 
+include!(concat!(env!("OUT_DIR"), "/strum_src.rs"));
+
+use proc_macro2::TokenStream;
+use syn::DeriveInput;
+
+pub const DERIVES: [&str; 17] = [
+    "EnumString", "AsRefStr", "VariantNames", "VariantArray", "AsStaticStr", "IntoStaticStr", "ToString", "Display",
+    "EnumIter", "EnumIs", "EnumTryAs", "EnumTable", "FromRepr", "EnumMessage", "EnumProperty", "EnumDiscriminants", "EnumCount",
+];
+
+#[derive(Debug, Clone, PartialEq)]
+pub enum Outcome {
+    /// generated tokens
+    Ok(String),
+    /// syn::Error message and (line, column) of its span start
+    Err(String, (usize, usize)),
+    /// the text is not a DeriveInput at all (rustc would reject it before the macro runs)
+    NotAnItem(String),
+    Panic(String),
+}
+
+fn call(derive: &str, ast: &DeriveInput) -> syn::Result<TokenStream> {
+    use macros::as_ref_str::GenerateTraitVariant;
+    match derive {
+        "EnumString" => macros::from_string::from_string_inner(ast),
+        "AsRefStr" => macros::as_ref_str::as_ref_str_inner(ast),
+        "VariantNames" => macros::enum_variant_names::enum_variant_names_inner(ast),
+        "VariantArray" => macros::enum_variant_array::static_variants_array_inner(ast),
+        "AsStaticStr" => macros::as_ref_str::as_static_str_inner(ast, &GenerateTraitVariant::AsStaticStr),
+        "IntoStaticStr" => macros::as_ref_str::as_static_str_inner(ast, &GenerateTraitVariant::From),
+        "ToString" => macros::to_string::to_string_inner(ast),
+        "Display" => macros::display::display_inner(ast),
+        "EnumIter" => macros::enum_iter::enum_iter_inner(ast),
+        "EnumIs" => macros::enum_is::enum_is_inner(ast),
+        "EnumTryAs" => macros::enum_try_as::enum_try_as_inner(ast),
+        "EnumTable" => macros::enum_table::enum_table_inner(ast),
+        "FromRepr" => macros::from_repr::from_repr_inner(ast),
+        "EnumMessage" => macros::enum_messages::enum_message_inner(ast),
+        "EnumProperty" => macros::enum_properties::enum_properties_inner(ast),
+        "EnumDiscriminants" => macros::enum_discriminants::enum_discriminants_inner(ast),
+        "EnumCount" => macros::enum_count::enum_count_inner(ast),
+        other => panic!("unknown derive {}", other),
+    }
+}
+
+pub fn panic_msg(e: Box<dyn std::any::Any + Send>) -> String {
+    if let Some(s) = e.downcast_ref::<&str>() {
+        s.to_string()
+    } else if let Some(s) = e.downcast_ref::<String>() {
+        s.clone()
+    } else {
+        "<non-string panic>".into()
+    }
+}
+
+/// Run one derive on source text, the way lib.rs does (parse as DeriveInput, call *_inner).
+pub fn expand(derive: &str, src: &str) -> Outcome {
+    let r = std::panic::catch_unwind(|| {
+        let ast: DeriveInput = match syn::parse_str(src) {
+            Ok(a) => a,
+            Err(e) => return Outcome::NotAnItem(e.to_string()),
+        };
+        match call(derive, &ast) {
+            Ok(ts) => Outcome::Ok(ts.to_string()),
+            Err(e) => {
+                let st = e.span().start();
+                Outcome::Err(e.to_string(), (st.line, st.column))
+            }
+        }
+    });
+    match r {
+        Ok(o) => o,
+        Err(p) => Outcome::Panic(panic_msg(p)),
+    }
+}
+
+/// string literals of a token stream, in order (used to read VariantNames back)
+pub fn string_literals(tokens: &str) -> Vec<String> {
+    fn walk(ts: TokenStream, out: &mut Vec<String>) {
+        for t in ts {
+            match t {
+                proc_macro2::TokenTree::Group(g) => walk(g.stream(), out),
+                proc_macro2::TokenTree::Literal(l) => {
+                    if let Ok(s) = syn::parse_str::<syn::LitStr>(&l.to_string()) {
+                        out.push(s.value());
+                    }
+                }
+                _ => {}
+            }
+        }
+    }
+    let mut out = Vec::new();
+    if let Ok(ts) = tokens.parse::<TokenStream>() {
+        walk(ts, &mut out);
+    }
+    out
+}
+
+/// does the expansion parse as a sequence of items?
+pub fn parses_as_items(tokens: &str) -> bool {
+    syn::parse_str::<syn::File>(tokens).is_ok()
+}
